@@ -152,8 +152,10 @@ def unmarshal (recv : V) (data : Slice) : R V :=
     let (h, e) ← msgTryU Header.unmarshal h0 data
     let no ← data.u32From 8
     let s1 ← data.sliceR 12 16
-    let s2 ← data.fromR 16
-    let n := 16 + hw.length
+    -- a receiver whose HWAddr is not 6 bytes long gets a fresh 6-byte address; `copy(p.HWAddr, data[n:n+ETH_ALEN])`
+    let hw := if hw.length ≠ Gen.openflow13.ETH_ALEN then zeros Gen.openflow13.ETH_ALEN else hw
+    let s2 ← data.sliceR 16 (16 + Gen.openflow13.ETH_ALEN)
+    let n := 16 + Gen.openflow13.ETH_ALEN
     let s3 ← data.sliceR n (n + 2)
     let cfg ← data.u32From (n + 2)
     let mask ← data.u32From (n + 6)
@@ -662,13 +664,13 @@ def marshalM : V → R (Bytes × V)
     let bs ← fill 32 [pU16 p, pCopyAdv pad 2, pU32 q, pU64 tb, pU64 tp, pU64 te]
     same bs (.obj "QueueStats" [.num p, .bytes pad, .num q, .num tb, .num tp, .num te])
   | _ => .panic
-/-- the decoder advances by len(pad) (0 for `new(QueueStats)`), the encoder by 2 -/
+/-- the padding is copied into whatever `pad` the receiver holds; the cursor advances by 2 -/
 def unmarshal (recv : V) (data : Slice) : R V :=
   match recv with
   | .obj "QueueStats" [_, .bytes pad, _, _, _, _] => do
     let p ← data.u16From 0
     let s ← data.fromR 2
-    let n := 2 + pad.length
+    let n := 4
     let q ← data.u32From n
     let tb ← data.u64From (n + 4)
     let tp ← data.u64From (n + 12)
@@ -1185,7 +1187,8 @@ structure St where
   body : List V
   err : Bool
 
-/-- int cursor; err is the header's, overwritten by each record's; a record of length 0 is an error -/
+/-- int cursor; err is the header's, reset by each decoded record; a record that fails to decode, or of length 0, is
+    an error -/
 def unmarshalWith (childLen : MsgLenF) (recv : V) (data : Slice) : R V :=
   match recv with
   | .obj "MultipartReply" [h0, _, _, p, _] => do
@@ -1196,6 +1199,7 @@ def unmarshalWith (childLen : MsgLenF) (recv : V) (data : Slice) : R V :=
       (fun s => do
         let d ← data.fromR s.n
         let (r, e) ← decodeRecord t.toNat d
+        if e then .err else do      -- a record that fails to decode ends the reply with its error
         let (l, r) ← childLen r
         if l = 0 then .err else
         pure { n := s.n + l.toNat, body := s.body ++ [r], err := e })
